@@ -2,10 +2,10 @@ SPECIFICATION Spec
 CONSTANTS
   AttrPrefixes = {"-"}
   KeyPrefixes = {"#"}
-  FieldSeps = {":", "|", "::"}
+  FieldSeps = {":"}
   ArraySizes = {0}
-  ActiveFns = {"SetFieldSeparator"}
-  ActiveOps = {"query", "upd"}
-  MaxHist = 3
+  ActiveFns = {"XMLEscapeChars", "XMLEscapeCharsDecoder"}
+  ActiveOps = {"dec", "enc", "seqrt"}
+  MaxHist = 4
 INVARIANTS Functional OnlyRelevant Emit
 CHECK_DEADLOCK FALSE
